@@ -85,6 +85,22 @@ PROPS = {
         "assumptions": TRUST,
         "required_reach": {"quick": CODE_REACH + ["nested-unreferenced", "nested-referenced-twice"]},
     },
+    "C09": {
+        "level": "exploration",
+        "interpreters": PRODUCERS,
+        "rule": PROG_RULE % ("; thorough adds the stdlib corpus", "with at least one operand-table entry, counted separately as decoded and as canonically re-encoded (normalize().to_code() decoded again)")
+        + ". For every override-carrying table entry whose position equals its first-use rank (computed from CPython's reading), the override is removed from all uses with dataclasses.replace and the data re-encoded: identical code => violation.",
+        "assumptions": TRUST + ["at most 64 removal experiments per code object (cap hits are reported as sum_removal_cap_hits; 0 on a healthy tree)"],
+        "required_reach": {"quick": CODE_REACH + ["unreferenced:const", "unreferenced:name@3.7,3.8,3.9", "tables-in-first-use-order:decoded", "tables-in-first-use-order:canonical", "override-carrying:decoded"]},
+    },
+    "C05": {
+        "level": "exploration",
+        "interpreters": PRODUCERS,
+        "rule": PROG_RULE % ("; thorough adds the stdlib corpus", "compared statically (CPython's reading of both code objects, recursively through nested code) ")
+        + " Behavioural stratum X: closed terminating programs executed before/after normalization under sys.settrace with identical prelude; stdout, exception, resulting globals and traced (name, event, line) streams compared.",
+        "assumptions": TRUST + ["behavioural equivalence is decided only for the closed, terminating executable sub-grammar"],
+        "required_reach": {"quick": CODE_REACH + ["changed-but-equivalent"]},
+    },
 }
 
 BASE_NOTE = (
@@ -104,6 +120,18 @@ MANIFEST_TEXT = {
         "design_ref": "DESIGN.md section 4 C02",
         "note": BASE_NOTE,
         "technique": "bounded exhaustive enumeration of programs; independent reference reader (R-DIS/R-LINE) as oracle",
+    },
+    "C09": {
+        "text": "Same exhaustive space (decoded and canonically re-encoded objects); first-use ranks are computed from CPython's reading; every override-carrying entry sitting at its rank is put to the removal experiment the property itself defines (remove from all uses, re-encode, compare strictly); additional args compared with the unreferenced entries as multisets.",
+        "design_ref": "DESIGN.md section 4 C09",
+        "note": BASE_NOTE,
+        "technique": "bounded exhaustive enumeration of programs; per-entry removal experiment on the real encoder",
+    },
+    "C05": {
+        "text": "Same exhaustive space: CPython's own reading of c and of normalize().to_code() compared instruction by instruction (operands resolved, jump targets as instruction indices, lines via PyCode_Addr2Line, signature, docstring, header, flags up to CO_NESTED/CO_NOFREE), recursively; plus real execution of a closed terminating sub-grammar under sys.settrace before and after.",
+        "design_ref": "DESIGN.md section 4 C05",
+        "note": BASE_NOTE,
+        "technique": "bounded exhaustive enumeration of programs; static reference reading plus differential execution with tracing",
     },
     "C13": {
         "text": "Same exhaustive space; the block partition is compared with the jump-target set computed from CPython's reading: no empty block, exact starts, every later block targeted.",
